@@ -104,8 +104,10 @@ impl<'a> Scenario for IndexScenario<'a> {
             }
             Dev::SetScripts(cmd, which) => {
                 // re-register the first script with the block number the client currently reports
-                // (which = 0) or with a number three blocks below the peer's tip (which = 1)
-                let r = &self.regs[0];
+                // (which = 0) or with a number three blocks below the peer's tip (which = 1);
+                // which = 2: the LAST script with its current number (a `delete` of it keeps the
+                // scripts whose matched blocks may be pending)
+                let r = if *which == 2 { self.regs.last().expect("regs") } else { &self.regs[0] };
                 let current = oracle::rpc_scripts(sim.c())
                     .into_iter()
                     .find(|(s, l, _)| s == &r.script && *l == r.is_lock)
